@@ -303,7 +303,7 @@ impl Property for C16 {
         ]
     }
     fn random_cases(&self, tier: Tier) -> u64 {
-        tier.pick(24_000, 1_000_000)
+        tier.pick(60_000, 2_000_000)
     }
     fn max_shrink_iters(&self) -> u32 {
         300
